@@ -1577,7 +1577,7 @@ fn main() {
         "c09-tls-h2" => run_c09_h2(seed, if quick { 60 } else { 3000 }),
         "c20-tls" => run_c20(seed, if quick { 60 } else { 3000 }),
         "c17-tls" => run_c17(seed, if quick { 30 } else { 800 }),
-        "c15-tls" => run_c15(seed, if quick { 2 } else { 40 }),
+        "c15-tls" => run_c15(seed, if quick { 12 } else { 600 }),
         "c16-tls" => run_c16(seed, if quick { 60 } else { 2500 }),
         _ => {
             eprintln!("usage: vmon_tls c18-tls|c09-tls|c20-tls|c17-tls --seed N --tier T --out F");
